@@ -225,7 +225,7 @@ CHECKS["C14"] = dict(
           "to the model is exactly those features in that order, independent of the dict's key order; river one-hot over the labels seen so "
           "far, never dropping one; dispatch table). NumPy/torch/sklearn behaviour is outside the model, so the claim rests on the "
           "correspondence: real wrappers over output shapes x dtypes x batch sizes x key orders vs the model and vs the canonical form, real "
-          "sklearn/torch/river models, dispatch over sklearn's and river's estimator classes."),
+          "sklearn/torch/river models, dispatch over sklearn's and river's estimator classes; the excluded column may hold a string and the raw dtype reaching the model is observed."),
     design_ref="DESIGN.md section 6, C14", note="Trusted: Lean kernel + standard axioms for the model theorems; NumPy conversion semantics, torch, sklearn, river are exercised, not modelled.",
     technique="Lean 4 theorems over array model + differential correspondence over shapes/dtypes/batches/key orders",
 )
@@ -235,7 +235,7 @@ CHECKS["C18"] = dict(
           "for the regenerated reservoir kernels and the joint imputer (a step is a function of state, observation and the draws it consumes; "
           "positions advance by the draws consumed). The property is decided by record/replay on the real library in float mode: for 16 "
           "explainer x storage x imputer configurations (incl. TreeStorage/TreeImputer) seeded replays are bit-identical, also after creating "
-          "and using decoy objects, recorded draw logs coincide, under three PYTHONHASHSEED values; static scan of ixai/ for other entropy sources."),
+          "and using decoy objects, with per-call budgets below and above the configured one, with an unused default-constructed TreeStorage created after seeding, and under a virtual clock; recorded draw logs coincide, under three PYTHONHASHSEED values; static scan of ixai/ for other entropy sources."),
     design_ref="DESIGN.md section 6, C18", note="Trusted: random.seed/np.random.seed determine the global generators; TreeStorage given an explicit seed; same interpreter configuration within a pair.",
     technique="record/replay correspondence + Lean 4 locality theorems over regenerated kernels",
 )
